@@ -314,15 +314,37 @@ def _local_classes(prog: Program, fi: FuncInfo) -> Dict[str, str]:
     return cls
 
 
+def _stores_of(fi: FuncInfo) -> set:
+    out = set()
+    for n in walk_local(fi.node):
+        if isinstance(n, ast.Name) and isinstance(n.ctx, ast.Store):
+            out.add(n.id)
+    return out
+
+
 def effects_of(prog: Program, fi: FuncInfo) -> List[Effect]:
     out: List[Effect] = []
     lc = _local_classes(prog, fi)
     m = prog.modules[fi.relpath]
     first_param = fi.params[0] if fi.params else None
     declared_global = set()
+    declared_nonlocal = {}
     for n in walk_local(fi.node):
-        if isinstance(n, (ast.Global, ast.Nonlocal)):
+        if isinstance(n, ast.Global):
             declared_global |= set(n.names)
+        elif isinstance(n, ast.Nonlocal):
+            # a rebinding of a variable of an enclosing function: the cell belongs to that function's activation
+            for nm in n.names:
+                p = fi.parent
+                while p is not None and nm not in p.params and nm not in _stores_of(p):
+                    p = p.parent
+                declared_nonlocal[nm] = p.key if p is not None else "?"
+
+    def name_write(nm, node):
+        if nm in declared_global:
+            out.append(Effect(fi, "global-write", nm, "global", node, nm))
+        elif nm in declared_nonlocal:
+            out.append(Effect(fi, "nonlocal-write", nm, "cell:" + declared_nonlocal[nm], node, nm))
 
     def root_class(name: Optional[str]) -> str:
         if name is None:
@@ -369,8 +391,8 @@ def effects_of(prog: Program, fi: FuncInfo) -> List[Effect]:
                         add("attr-store", e, n)
                     elif isinstance(e, ast.Subscript):
                         add("item-store", e, n)
-                    elif isinstance(e, ast.Name) and e.id in declared_global:
-                        out.append(Effect(fi, "global-write", e.id, "global", n, e.id))
+                    elif isinstance(e, ast.Name):
+                        name_write(e.id, n)
         elif isinstance(n, ast.AnnAssign) and n.value is not None:
             if isinstance(n.target, ast.Attribute):
                 add("attr-store", n.target, n)
@@ -382,8 +404,8 @@ def effects_of(prog: Program, fi: FuncInfo) -> List[Effect]:
             elif isinstance(n.target, ast.Subscript):
                 add("item-store", n.target, n)
             elif isinstance(n.target, ast.Name):
-                if n.target.id in declared_global:
-                    out.append(Effect(fi, "global-write", n.target.id, "global", n, n.target.id))
+                if n.target.id in declared_global or n.target.id in declared_nonlocal:
+                    name_write(n.target.id, n)
                 else:
                     # x += y mutates in place when x is a list/dict/set aliasing something else
                     rc = root_class(n.target.id)
